@@ -97,6 +97,44 @@ class Expect:
         return m, False
 
 
+def _float_value(t: Any, vals: list[float | None], leaf_naz: list[bool], composed: bool, enclosing_naz: bool) -> float:
+    """IEEE value of the expression at one timestamp, NaN = missing/undefined.  Only used to decide *finiteness* when
+    inputs near the float limit are involved (an intermediate may overflow to +-inf and the result still be finite:
+    x / inf == 0, min(inf, c) == c; a sub-engine however emits None for a non-finite result of its own)."""
+    k = t[0]
+    if k == "leaf":
+        v = vals[t[1]]
+        if v is None or math.isnan(v) or math.isinf(v):
+            return 0.0 if (leaf_naz[t[1]] or (composed and enclosing_naz)) else math.nan
+        return v
+    if k in ("const_f", "const_q"):
+        return float(t[1])
+    if k == "un":
+        x = _float_value(t[2], vals, leaf_naz, composed, enclosing_naz)
+        if math.isnan(x):
+            return x
+        return max(x, 0.0) if t[1] == "consumption" else max(-x, 0.0)
+    if k == "sub":
+        x = _float_value(t[1], vals, leaf_naz, composed, t[2])
+        if math.isnan(x) or math.isinf(x):
+            return 0.0 if enclosing_naz else math.nan
+        return x
+    op = t[1]
+    a = _float_value(t[2], vals, leaf_naz, composed, enclosing_naz)
+    b = _float_value(t[3], vals, leaf_naz, composed, enclosing_naz)
+    if math.isnan(a) or math.isnan(b):
+        return math.nan
+    if op == "+":
+        return a + b
+    if op == "-":
+        return a - b
+    if op == "*":
+        return a * b
+    if op == "/":
+        return math.nan if b == 0.0 else a / b
+    return max(a, b) if op == "max" else min(a, b)
+
+
 async def _run_formula(sim: Sim, spec: dict[str, Any], table: list[list[float | None]], tag: str,
                        schedule: list[list[int]] | None) -> list[tuple[int, float | None]]:
     from frequenz.channels import Broadcast
@@ -219,9 +257,18 @@ def scenario(sim: Sim) -> None:
             if k not in byts:
                 continue
             if any(kinds[i][k].startswith("huge") for i in range(n)):
+                # finite inputs near the float limit: whether the *result* is finite is decided by evaluating the
+                # expression in IEEE doubles (only finiteness is used, never the value: that would be C05)
+                fv = _float_value(tree, [table[i][k] for i in range(n)], leaf_naz, kind == "composed", top_naz)
+                want_none = math.isnan(fv) or math.isinf(fv)
                 if byts[k] is None:
                     sim.probe("overflow_to_none")
-                continue   # whether the result overflows cannot be decided without evaluating the expression (R4)
+                if want_none != (byts[k] is None):
+                    sim.soft_violation("none_iff_missing", dict(sigbase, direction="none_instead_of_value" if byts[k] is None
+                                                                else "value_instead_of_none", inputs="near_float_limit"),
+                                       f"T={k}: inputs {[(i, kinds[i][k]) for i in range(n) if kinds[i][k] != 'ok']}: the "
+                                       f"expression evaluates to {fv} in IEEE doubles, the formula emitted {byts[k]}")
+                continue
             m, reasons = expects[k]
             is_none = byts[k] is None
             if m and not is_none:
